@@ -24,14 +24,15 @@ def gen(rnd, zone, tier):
         for t in tr[:1] + tr[-2:]:
             for dt_ in (D.datetime.fromtimestamp(t - 1, tz), D.datetime.fromtimestamp(t, tz)):
                 for k in (-90, -30, 0, 30): starts.append((dt_.hour * 60 + dt_.minute + k) % 1440)
-        starts = sorted(set(starts))[:14 if tier == "quick" else 40]
+        starts = sorted(set(starts))
     for dayk in range(7):
         day = base + D.timedelta(days=dayk)
         for s in starts:
-            for cur in sorted({(s - 1) % 1440, s, (s + 1) % 1440, 0, 1, 720, 1439}):
-                dt = D.datetime(day.year, day.month, day.day, cur // 60, cur % 60, 20, tzinfo=tz)
+            for cur, fold in sorted({((s + k) % 1440, f) for k in (-1, 0, 1, -20, 20, -40, 40, -70, 70) for f in (0, 1)} | {(0, 0), (1, 0), (720, 0), (1439, 0)}):
+                dt = D.datetime(day.year, day.month, day.day, cur // 60, cur % 60, 20, tzinfo=tz, fold=fold)
+                if fold and dt.utcoffset() == dt.replace(fold=0).utcoffset(): continue       # not an ambiguous wall-clock time
                 now = int(dt.timestamp())
-                for m in (sets if tier == "thorough" else rnd.sample(sets, 12)):
+                for m in (sets if tier == "thorough" else rnd.sample(sets, 6)):
                     cases.append({"zone": zone, "now": now, "start": "%02d:%02d" % divmod(s, 60), "days": [d for d in range(7) if m >> d & 1]})
     return cases
 
